@@ -371,6 +371,11 @@ struct conf_node_string *conf_register_string(struct conf_node_object *parent, e
     struct conf_node_string *cnode;
 
     cnode = conf_register_node(parent, name, CONF_STRING, sizeof(*cnode));
+    if (cnode->subtype == CONF_STRING_PLAIN && subtype != CONF_STRING_PLAIN) {
+        /* What the parser recorded for the plain text is a pointer, not a
+         * value of the type this setting now gets. */
+        memset(&cnode->parsed, 0, sizeof(cnode->parsed));
+    }
     cnode->subtype = subtype;
     cnode->def_value = def_value;
     if (cnode->value && def_value && subtype != CONF_STRING_PLAIN) {
